@@ -344,6 +344,13 @@ def compare_model(ctx, reqs, metas):
         if bad: ctx.disagree("C08.step", desc, bad, "see impl")
 
 # ------------------------------------------------------------------ real processes (smoke)
+class SlowSink:
+    """mixin for QueueSink: a write made by a thread of the parent other than the main thread (the loader, the completion callbacks) is slow to RETURN -
+    the item is in the queue, the caller is descheduled before its next statement (an ordinary OS schedule, stretched)"""
+    def write(self, items):
+        super().write(items)
+        if threading.current_thread() is not threading.main_thread(): time.sleep(0.25)
+
 SMOKE = r'''
 import sys, json, time
 sys.path.insert(0, %(repo)r); sys.path.insert(0, %(verif)r)
@@ -351,11 +358,16 @@ import warnings; warnings.simplefilter("ignore")
 from coba.pipes.multiprocessing import Multiprocessor
 from coba.multiprocessing import CobaMultiprocessor
 from coba.context import CobaContext, NullLogger
-from harness.c08 import TableFilter
+from harness.c08 import TableFilter, SlowSink
+import coba.pipes.multiprocessing as M
+OrigSink = M.QueueSink
+class SlowQueueSink(SlowSink, OrigSink): pass
 if __name__ == "__main__":
     CobaContext.logger = NullLogger()
     for i, (n, m, table, coba) in enumerate(json.load(open(sys.argv[1]))):
         print(json.dumps(["start", i]), flush=True)
+        M.QueueSink = SlowQueueSink if coba == "slow-callbacks" else OrigSink
+        coba = coba is True
         try:
             f = TableFilter([tuple(t) for t in table])
             mp = CobaMultiprocessor(f, n, m) if coba else Multiprocessor(f, n, m)
@@ -370,7 +382,10 @@ def smoke(ctx, k):
     cases = [(1, 0, [([0, 1], False, None), ([2], False, None)], False), (1, 2, [([0], False, None), ([1], True, "RuntimeError"), ([2], False, None)], True),
              (2, 1, [([0], False, None), ([1, 2], True, "AssertionError"), ([3], False, None)], False),
              (2, 0, [([0], False, None), ([1], True, "EXIT"), ([2], False, None), ([3], False, None)], False),
-             (1, 2, [([0], True, "EXIT"), ([1], False, None)], False)]
+             (1, 2, [([0], True, "EXIT"), ([1], False, None)], False),
+             # the completion callbacks are descheduled right after each queue write: an error of the worker that retires last still reaches the caller
+             (1, 2, [([0], False, None), ([1], False, None), ([2], True, "ValueError")], "slow-callbacks"), (1, 1, [([0], True, "KeyError")], "slow-callbacks"),
+             (2, 1, [([0], True, "ValueError"), ([1], True, "ValueError")], "slow-callbacks"), (1, 3, [([0], False, None), ([1, 2], False, None)], "slow-callbacks")]
     for _ in range(k):
         n, m, ab, table = gen_case(rng)[:4]
         cases.append((n, m, table, rng.random() < 0.3))
